@@ -1,7 +1,7 @@
 SPECIFICATION Spec
 CONSTANTS
   Cycs = {1, 2, 3, 4, 6, 8}
-  Dels = {0, 1, 3}
+  Dels <- DelsQuick
   Reps <- RepsQuick
   Defects = {}
 INVARIANTS ImplIsDesign InRange PreIff EndIff Terminal Linear HoldAtEnd PeakAtHalf Mirror Periodic Flags TotalAgrees
